@@ -146,7 +146,9 @@ def exch_at_clock_instants(ctx, rule):
             val = Valuation(nums={'dt.weekday()': wd, 'dt.isoweekday()': wd + 1, 'dt.time()': m, 'self.open_dt': 870, 'self.close_dt': 1260,
                                   'dt.hour': h, 'dt.minute': mi, 'dt.second': 0, 'self.open_dt.hour': 14, 'self.open_dt.minute': 30,
                                   'self.close_dt.hour': 21, 'self.close_dt.minute': 0})
-            ps = summarise(ctx, fn, policy=default_policy, oracle=val)
+            # the answer may be assembled from other methods of the exchange (a phase classifier): they are part of the question
+            own = lambda caller, callee, depth, _c=fn.cls: depth <= 5 and (default_policy(caller, callee, depth) or (callee.cls is not None and callee.cls is _c))
+            ps = summarise(ctx, fn, policy=own, oracle=val)
             res = {val.evalbool(p.value) if p.outcome == 'return' else 'raise' for p in ps}
             got[(h, mi, wd)] = res
             ctx.require(res == {exp} if None not in res else None, rule, 'exchange is %s at the clock instant %02d:%02d (weekday %d)' % ('open' if exp else 'closed', h, mi, wd),
